@@ -90,6 +90,9 @@ func (e *Engine) callFn(st *State, th *Thread, fn *ssa.Function, args []Value, b
 		if commit != nil {
 			commit()
 		}
+		if _, pushed := res.(pushedFrame); pushed {
+			return
+		}
 		e.deliverResult(st, th, res)
 		return
 	}
